@@ -85,3 +85,11 @@ claim('C19',
       'Does not decide numerical values nor eval() of dT-dependent subfactor expressions.',
       'Trusted: the NumPy models of dsa/interval.py (unknown constructs evaluate to TOP and can only lose a proof); stated input assumptions.',
       'DESIGN.md 4 C19')
+claim('C13',
+      'interval (sign) abstract interpretation of the clad/fuel temperature recurrences incl. loop bodies, geometric-fact derivation from the constructor, bounded-loop check on the CFG',
+      'Static conformance to the structural necessary conditions of C13 in DESIGN 4.13: every statement deriving a pin temperature from another adds an increment proved >= 0 under q >= 0, '
+      'htc > 0, k > 0, dz > 0 and the log/shell terms shown >= 0 from the constructor (and exactly 0 when q = 0), in both the pre-loop and in-loop assignments; shells are chained surface to '
+      'centre; the clad array is returned in [OD, MW, ID] order as consumed; the zero-gap branch returns the clad temperature; the three conductivity iterations are bounded; the pin coolant '
+      'temperature is the pin-fraction weighted sum over adjacent subchannels. Does not decide the radiating gap, clad ID >= MW, nor conduction residuals numerically.',
+      'Trusted: NumPy models of dsa/interval.py; assumption that conductivity callables return positive values.',
+      'DESIGN.md 4 C13')
